@@ -1,0 +1,26 @@
+/* SPDX-License-Identifier: LGPL-3.0-or-later */
+/*
+ * verif_hooks.h
+ *
+ * Reach probes for the external verification harness. Unless the build
+ * defines AGENTD_SQUASHFS_TOOLS_NG_VERIF (no shipped configuration does),
+ * every macro below expands to nothing and the code is token for token
+ * what it was before.
+ */
+#ifndef UTIL_VERIF_HOOKS_H
+#define UTIL_VERIF_HOOKS_H
+
+#ifdef AGENTD_SQUASHFS_TOOLS_NG_VERIF
+#ifdef __cplusplus
+extern "C" {
+#endif
+void verif_probe(const char *name);
+#ifdef __cplusplus
+}
+#endif
+#define VERIF_PROBE(name) verif_probe(name)
+#else
+#define VERIF_PROBE(name) ((void)0)
+#endif
+
+#endif /* UTIL_VERIF_HOOKS_H */
